@@ -1,39 +1,65 @@
 """C06 — static task ordering is a total order consistent with dependencies.
 
-Model:    lean/DaskModel/Model/Order.lean (`validOrder` checker, `stripPrio` frame)
-Theorems: lean/DaskModel/Props/C06.lean (`validOrder_iff`: the checker decides the statement; frame arithmetic)
-Tie:      every real `dask.order.order` output for generated graphs is fed, together with the dependencies the real code
-          sees (DependenciesMapping), to the compiled proved checker and to an independent Python oracle; cyclic
-          variants must raise RuntimeError; the priorities of stripped non-task leaves are compared with the frame model.
+Model:    lean/DaskModel/Model/Order.lean (`validOrder` checker; `strip` = the normalisation loop; `framePrios` /
+          `coreOKb` = the frame around the heuristic core; `ndependencies` + `orderPrelude` = the Kahn-style count
+          and the cycle test `len(total_dependencies) != len(dsk)`)
+Theorems: lean/DaskModel/Props/C06.lean (`validOrder_iff`, `order_frame_valid`, `coreOKb_iff`, `order_rejects_cyclic`,
+          `order_accepts_acyclic`, `order_raises_iff_cyclic`, ...)
+Tie:      * `ndeps`: real `dask.order.ndependencies(dependencies, dependents)` vs the model (both dicts, insertion order
+            of `total_dependencies` included) on DAGs and on cyclic digraphs, plus a Python oracle of the statement
+            "a key gets a total iff it lies on / depends on no cycle";
+          * `order`: every real `dask.order.order` output for generated graphs is fed, together with the dependencies the
+            real code sees (DependenciesMapping), to the compiled proved checker and to an independent Python oracle;
+            "the model says `order` raises" (`orderPrelude`) is diffed against the real call raising; the whole real
+            dict is compared with `framePrios expected_len stripped core` where `core` is read off the real priorities
+            and must pass the compiled `coreOKb` -- so `order_frame_valid_checked` applies to the output literally;
+          * `collection`: array / bag / delayed shaped graphs.
 """
 from __future__ import annotations
 
 import itertools
 
 from sexp import Sym
-from props._graph_util import all_dags, has_cycle_from, random_dag
+from props._graph_util import all_dags, all_digraphs, has_cycle_from, random_dag, random_digraph
 
 PROP = "C06"
 READY = True
 DRIVER = "dm_graph"
 LEAN_MODULES = ["DaskModel.Props.C06"]
-LEVEL_TEXT = ("PARTIAL by design (order() is ~600 lines of heuristics), two layers. (1) Proved checker: validOrder_iff -- the "
-              "executable validOrder accepts a (graph, priority dict) pair iff the statement holds for it (a priority for exactly "
-              "the graph's keys, pairwise distinct, every key above all its in-graph dependencies); every real order() output "
-              "of the run goes through the compiled checker with the dependencies the real code reads. (2) Proved frame: "
+LEVEL_TEXT = ("PARTIAL by design (order() is ~600 lines of heuristics), three layers. (1) Proved checker: validOrder_iff -- "
+              "the executable validOrder accepts a (graph, priority dict) pair iff the statement holds for it (a priority for "
+              "exactly the graph's keys, pairwise distinct, every key above all its in-graph dependencies); every real order() "
+              "output of the run goes through the compiled checker with the dependencies the real code reads. (2) Proved frame: "
               "order_frame_valid -- for the transliterated normalisation loop (stripping of non-task leaves, removal of shared "
               "data roots, DependenciesMapping._removed semantics) and ANY core that emits each remaining internal key once and "
-              "after its dependencies (CoreOK), the returned dict (stripped leaves at expected_len-1-j, core keys 0,1,.., "
-              "external keys deleted) satisfies the statement; via strip_inv (every dependent of a stripped leaf was stripped "
-              "before it) and the stripPrio arithmetic; old_formula_collides shows why the unrepaired code was wrong. NOT proved: "
-              "that the heuristic core (critical-path walk, process_runnables, add_to_result) satisfies CoreOK -- validated per "
-              "output; cyclic graphs: rejection validated.")
-LEVEL_NOTE = ("Trusted: Lean kernel + standard axioms; the harness that extracts dependencies (DependenciesMapping) and interns "
-              "keys; an independent Python oracle is diffed against the proved checker on every case. Fixed in /repo: colliding "
-              "priorities with >= 2 stripped non-task leaves (DESIGN 6 #2). Observation (not a violation of the statement, "
-              "which only asks for an error): some cyclic graphs are rejected with KeyError instead of the RuntimeError.")
-TECHNIQUE = "Lean 4 proof of a checker (validOrder_iff) applied to every real output (translation validation) + frame arithmetic + differential correspondence"
-ASSUMPTIONS = ["keys are interned to Nat for the checker; the dependencies handed to the checker are the ones the real code reads (DependenciesMapping)"]
+              "after its dependencies (CoreOK, decided by the compiled coreOKb: coreOKb_iff), the returned dict (stripped leaves "
+              "at expected_len-1-j, core keys 0,1,.., external keys deleted) satisfies the statement; every real output of the "
+              "run is split into (stripped leaves, core order read off the priorities), must pass coreOKb and must equal "
+              "framePrios key by key, so the theorem applies to it literally. (3) Proved for all graphs with duplicate-free "
+              "keys and closed duplicate-free dependency sets, any task/non-task labelling: cyclic graphs are rejected -- "
+              "order_rejects_cyclic: the transliteration of the normalisation loop + ndependencies (Kahn-style count with the "
+              "explicit stack) + the test len(total_dependencies) != len(dsk), run with the driver's fuel, ends in the raising "
+              "branch (keys on a cycle are never stripped or removed: SInv.noCyc; keys that receive a total form a topological "
+              "list: ndependencies_deps_before); the converse order_accepts_acyclic (on a DAG every remaining key gets a "
+              "total: counting invariant NdInv; no KeyError, fuel suffices: order_ndependencies_total) and "
+              "order_raises_iff_cyclic. NOT proved: that the heuristic core (critical-path walk, process_runnables, "
+              "add_to_result) satisfies CoreOK / terminates -- validated per output; that the raising branch's getcycle() call "
+              "terminates is C07 (toposort_total).")
+LEVEL_NOTE = ("Trusted: Lean kernel + standard axioms; the harness that extracts dependencies (DependenciesMapping), interns "
+              "keys and reads the core order off the real priorities; an independent Python oracle is diffed against the proved "
+              "checker on every case. The model's 'raises' means: the branch `if len(total_dependencies) != len(dsk)` is "
+              "entered; every path through it raises (RuntimeError, or the KeyError of getcycle(dsk, None) when a shared data "
+              "root was already removed -- observation, the statement only asks for an error). Set iteration order: the model "
+              "sweeps leaves/roots in list order, theorems hold for every listing; the harness lists the graph so that the "
+              "model's strip order is the one the real run took. Fixed in /repo: colliding priorities with >= 2 stripped "
+              "non-task leaves (DESIGN 6 #2).")
+TECHNIQUE = ("Lean 4 proofs: checker (validOrder_iff) applied to every real output (translation validation), frame theorem "
+             "over the transliterated normalisation loop with a decidable side condition (coreOKb_iff) checked per output, "
+             "cycle rejection by loop invariants (strip: SInv; ndependencies: TopoRev soundness + counting invariant, fuel "
+             "bound) + differential correspondence at function level (ndependencies) and API level (order)")
+ASSUMPTIONS = ["keys are interned to Nat; the dependencies handed to the model are the ones the real code reads (DependenciesMapping), external keys added as dependency-free data nodes as order() does",
+               "dependents = reverse_dict(dependencies) (built that way by order(); the model's aliveDependents is its definition)",
+               "the heuristic core emits every remaining key once, dependencies first, and terminates (CoreOK): checked on every real output, not proved"]
 CASE_TIMEOUT_S = 20
 
 
@@ -87,104 +113,260 @@ def _oracle(ctx, dsk, deps, res):
                 return
 
 
-def _run_order(ctx, dsk, what="order"):
-    from dask._task_spec import DependenciesMapping
+class _View:
+    """what the model sees of a graph: interned keys, the dependencies the real code reads, external keys as data nodes"""
+
+    def __init__(self, dsk):
+        from dask._task_spec import DependenciesMapping
+        from dask.core import istask
+        dm = DependenciesMapping(dsk)
+        self.dsk = dsk
+        self.deps = {k: list(dm[k]) for k in dsk}
+        self.idx = {k: i for i, k in enumerate(dsk)}
+        self.ext = []
+        for k in dsk:
+            for d in self.deps[k]:
+                if d not in self.idx:
+                    self.idx[d] = len(self.idx)
+                    self.ext.append(d)
+        self.back = {i: k for k, i in self.idx.items()}
+        idx = self.idx
+        # graph as order() normalises it: external keys added as dependency-free data nodes
+        self.rows = {idx[k]: sorted(idx[d] for d in self.deps[k]) for k in dsk}
+        for e in self.ext:
+            self.rows[idx[e]] = []
+        self.tasks = [idx[k] for k in dsk if istask(dsk[k])]
+        self.expected_len = len(dsk) + len(self.ext)
+        adj = [[idx[d] for d in self.deps[k] if d in dsk] for k in dsk]
+        self.cyclic = has_cycle_from(adj, list(range(len(adj))))
+        self.selfloop = any(idx[k] in self.rows[idx[k]] for k in dsk)
+
+    def g(self, first=()):
+        """rows of the model graph; the keys in `first` are listed first, in that order"""
+        order = list(first) + [i for i in self.rows if i not in set(first)]
+        return [[i, self.rows[i]] for i in order]
+
+    def g_internal(self):
+        """dependencies handed to the checker: as read by the real code (external references kept, no extra rows)"""
+        return [[self.idx[k], [self.idx[d] for d in self.deps[k]]] for k in self.dsk]
+
+
+def _call_order(ctx, v, what):
+    """real order(); returns ('ok', res) | ('raised', exception type name)"""
     from dask.order import order
-    deps = {k: list(DependenciesMapping(dsk)[k]) for k in dsk}
-    idx = {k: i for i, k in enumerate(dsk)}
-    nxt = len(idx)
-    g = []
-    for k in dsk:
-        row = []
-        for d in deps[k]:
-            if d not in idx:
-                idx[d] = nxt
-                nxt += 1
-            row.append(idx[d])
-        g.append([idx[k], row])
-    adj = [[idx[d] for d in deps[k] if d in dsk] for k in dsk]
-    cyclic = has_cycle_from(adj, list(range(len(adj))))
     try:
-        res = order(dsk)
+        return "ok", order(v.dsk)
     except RuntimeError as e:
-        if not cyclic:
+        if not v.cyclic:
             ctx.fail(f"{what}: RuntimeError on an acyclic graph: {e}")
-        else:
-            ctx.branch("cycle-rejected")
-        return None
+        return "raised", "RuntimeError"
     except Exception as e:
-        if cyclic:
-            # the statement only asks for "an error"; seen: KeyError from getcycle() on the graph whose shared data
-            # roots were already stripped (the cycle message is lost) -- recorded in notes/graph.md, not a violation
-            ctx.branch("cycle-rejected-" + type(e).__name__)
+        if not v.cyclic:
+            ctx.fail(f"{what} raised {type(e).__name__}: {e}")
+        # cyclic: the statement only asks for "an error"; seen: KeyError from getcycle() on the graph whose shared data
+        # roots were already removed (the cycle message is lost) -- recorded in notes/graph.md, not a violation
+        return "raised", type(e).__name__
+
+
+def _run_order(ctx, dsk, what="order", frame=True):
+    from dask.order import order
+    v = _View(dsk)
+    # --- the model's verdict on the cycle test (normalisation loop + ndependencies + len test)
+    prel = ctx.lean(Sym("order_prelude"), v.g(), v.tasks)
+    model_raises = prel[0] == "raises"
+    if prel[0] not in ("raises", "proceeds"):
+        ctx.disagree("orderPrelude ended in keyerror/fuel (excluded by order_ndependencies_total)", prel, None)
+    ctx.eq("model raises (cycle test) vs python cycle oracle [order_raises_iff_cyclic]", model_raises, v.cyclic)
+    status, res = _call_order(ctx, v, what)
+    ctx.eq("model: order raises  vs  real order raises", model_raises, status == "raised")
+    if v.cyclic:
+        if status == "ok":
+            ctx.fail(f"{what}: cyclic graph not rejected", observed=repr(res))
             return None
-        ctx.fail(f"{what} raised {type(e).__name__}: {e}")
+        ctx.branch("cycle-rejected" if res == "RuntimeError" else "cycle-rejected-" + res)
+        if v.selfloop:
+            ctx.branch("cyclic:self-loop")
+        else:
+            ctx.branch("cyclic:length>=2")
+        m_stripped, m_roots = ctx.lean(Sym("strip"), v.g(), v.tasks)
+        if m_stripped:
+            ctx.branch("cyclic:below-stripped-leaf")
+        if m_roots:
+            ctx.branch("cyclic:shared-data-root-removed")
+        if v.ext:
+            ctx.branch("cyclic:external-keys")
         return None
-    if cyclic:
-        ctx.fail(f"{what}: cyclic graph not rejected", observed=repr(res))
+    if status != "ok":
         return None
+    deps = v.deps
     _oracle(ctx, dsk, deps, res)
-    p = [[idx[k], int(v)] for k, v in res.items() if k in idx and isinstance(v, int) and v >= 0]
-    ok = ctx.lean(Sym("valid_order"), g, p)
+    idx = v.idx
+    p = [[idx[k], int(x)] for k, x in res.items() if k in idx and isinstance(x, int) and x >= 0]
+    ok = ctx.lean(Sym("valid_order"), v.g_internal(), p)
     py_ok = set(res) == set(dsk) and len(set(res.values())) == len(res) and all(
         res[d] < res[k] for k in dsk for d in deps[k] if d in dsk and d in res and k in res)
     ctx.eq("proved checker vs python oracle", ok, py_ok)
     if ok is not True and py_ok:
         ctx.disagree("validOrder rejects an output the oracle accepts", ok, py_ok)
+    # the totals the model hands to the core vs the real ndependencies on the normalised graph of the model
+    if prel[0] == "proceeds":
+        _ndeps_on_alive(ctx, v, prel)
+    if frame and py_ok:
+        _frame(ctx, v, res)
     # return_stats variant carries the same priorities
     try:
         st = order(dsk, return_stats=True)
-        if {k: v.priority for k, v in st.items()} != res:
+        if {k: s.priority for k, s in st.items()} != res:
             # set iteration makes equal-quality orders possible; both must be valid
-            _oracle(ctx, dsk, deps, {k: v.priority for k, v in st.items()})
+            _oracle(ctx, dsk, deps, {k: s.priority for k, s in st.items()})
     except Exception as e:
         ctx.fail(f"{what}(return_stats=True) raised {type(e).__name__}: {e}")
     return res
 
 
+def _ndeps_on_alive(ctx, v, prel):
+    """`proceeds num_needed total`: the same two dicts from the real ndependencies on the model's normalised graph"""
+    from dask.core import reverse_dict
+    from dask.order import ndependencies
+    nn = {k: n for k, n in prel[1]}
+    alive = set(nn)
+    dependencies = {k: {d for d in v.rows[k] if d in alive} for k in nn}
+    dependents = reverse_dict(dependencies)
+    r_nn, r_total = ndependencies(dependencies, dependents)
+    ctx.eq("order: num_needed handed to the core", sorted(nn.items()), sorted(r_nn.items()))
+    ctx.eq("order: total_dependencies handed to the core", sorted(map(tuple, prel[2])), sorted(r_total.items()))
+
+
+def _frame(ctx, v, res):
+    """split the real output into (stripped leaves, core order), run the decidable CoreOK, compare the whole dict with
+    framePrios -- then order_frame_valid_checked applies to this output"""
+    idx, back = v.idx, v.back
+    m_stripped, pairs, alive = ctx.lean(Sym("strip_full"), v.g(), v.tasks)
+    m_roots = sorted({r for _, r in pairs})
+    sset = set(m_stripped)
+    # the order in which the real run stripped them: descending priority; list the graph accordingly (the model sweeps
+    # in list order, the real code in set-iteration order; the theorem holds for every listing)
+    real_strip = sorted(sset, key=lambda i: -res[back[i]])
+    core = sorted((idx[k] for k in res if idx[k] not in sset), key=lambda i: res[back[i]])
+    ext = [idx[e] for e in v.ext]
+    ok, stripped, prios = ctx.lean(Sym("frame_check"), v.g(first=real_strip), v.tasks, ext, core)
+    ctx.eq("frame: model strip order on the re-listed graph = real strip order (by priority)", stripped, real_strip)
+    ctx.eq("frame: coreOKb on the core order read off the real priorities", ok, True)
+    ctx.eq("frame: framePrios expected_len stripped core = the real dict", sorted(map(tuple, prios)),
+           sorted((idx[k], x) for k, x in res.items()))
+    if m_stripped:
+        ctx.branch("stripped-leaves")
+        if len(m_stripped) > 1:
+            ctx.branch("stripped>=2")
+            if stripped != m_stripped:
+                ctx.branch("strip-order-differs-from-default-listing")
+    if m_roots:
+        ctx.branch("data-roots-removed")
+        if _orphans(pairs, set(alive)):
+            ctx.branch("orphaned-data-root (all dependents stripped later; fix 389cb25)")
+    if v.ext:
+        ctx.branch("external-keys")
+
+
+def _orphans(pairs, alive):
+    """removed data roots that requires_data_task remembers (transitively) only under stripped leaves"""
+    req = {}
+    for d, r in pairs:
+        req.setdefault(r, set()).add(d)
+
+    def reached(r, seen=()):
+        return any(d in alive or (d in req and d not in seen and reached(d, seen + (r,))) for d in req[r])
+    return [r for r in req if not reached(r)]
+
+
 def case_order(ctx, inp):
     adj, kinds, ext, style = inp["adj"], inp["kinds"], inp["ext"], inp.get("style", "legacy")
     K, dsk = build_graph(adj, kinds, ext, style)
-    from dask.core import istask
     res = _run_order(ctx, dsk)
     if res is None:
         return
     n = len(adj)
     dependents = {i: [j for j in range(n) if i in adj[j]] for i in range(n)}
-    # frame: the model of the normalisation loop predicts which non-task leaves are stripped; they must carry exactly
-    # the priorities expected_len-1 ... expected_len-S
-    from dask._task_spec import DependenciesMapping
-    dm = DependenciesMapping(dsk)
-    idx = {k: i for i, k in enumerate(dsk)}
-    all_ext = []
-    for k in dsk:
-        for d in dm[k]:
-            if d not in dsk and d not in idx:
-                idx[d] = len(idx)
-                all_ext.append(d)
-    g = [[idx[k], sorted(idx[d] for d in dm[k])] for k in dsk] + [[idx[e], []] for e in all_ext]
-    tasks = [idx[k] for k in dsk if istask(dsk[k])]
-    expected_len = len(dsk) + len(all_ext)
-    m_stripped, m_roots = ctx.lean(Sym("strip"), g, tasks)
-    back = {i: k for k, i in idx.items()}
-    stripped = [back[i] for i in m_stripped]
-    if stripped:
-        ctx.branch("stripped-leaves")
-        if len(stripped) > 1:
-            ctx.branch("stripped>=2")
-        got = sorted(res[k] for k in stripped)
-        model = sorted(ctx.lean(Sym("strip_prios"), expected_len, len(stripped)))
-        ctx.eq("priorities of stripped non-task leaves (frame model)", model, got)
-        hi = [k for k in res if res[k] >= expected_len - len(stripped)]
-        ctx.eq("keys carrying the top priorities = stripped leaves of the model", sorted(map(repr, stripped)), sorted(map(repr, hi)))
-    if m_roots:
-        ctx.branch("data-roots-removed")
-    if all_ext:
-        ctx.branch("external-keys")
     if any(kinds[i] == "data" and not adj[i] and len(dependents[i]) > 1 for i in range(n)):
         ctx.branch("data-root-shared")
     if any(len(a) > 1 for a in adj):
         ctx.branch("fan-in")
+
+
+def _py_totals(adj):
+    """oracle for ndependencies: a key gets a total iff it reaches no cycle; total = 1 + sum of the totals below"""
+    n = len(adj)
+    good = {}
+    changed = True
+    while changed:
+        changed = False
+        for i in range(n):
+            if i not in good and all(j in good for j in adj[i]):
+                good[i] = 1 + sum(good[j] for j in set(adj[i]))
+                changed = True
+    return good
+
+
+def case_ndeps(ctx, inp):
+    """function level: dask.order.ndependencies(dependencies, dependents) on arbitrary digraphs"""
+    from dask.core import reverse_dict
+    from dask.order import ndependencies
+    adj = inp["adj"]
+    n = len(adj)
+    perm = inp.get("perm") or list(range(n))        # dict insertion order of `dependencies`
+    keys = inp.get("keys", "int")
+    name = (lambda i: i) if keys == "int" else (lambda i: [0, "", ()][i] if i < 3 else (f"k{i}" if i % 2 else ("x", i)))
+    dependencies = {name(i): {name(j) for j in adj[i]} for i in perm}
+    dependents = reverse_dict(dependencies)
+    idx = {name(i): i for i in range(n)}
+    # the model gets the dicts in the iteration orders the real call will see
+    deps_rows = [[idx[k], [idx[d] for d in v]] for k, v in dependencies.items()]
+    dnts_rows = [[idx[k], [idx[d] for d in v]] for k, v in dependents.items()]
+    try:
+        r_nn, r_total = ndependencies(dependencies, dependents)
+    except Exception as e:
+        ctx.fail(f"ndependencies raised {type(e).__name__}: {e}")
+        return
+    m = ctx.lean(Sym("ndeps"), deps_rows, dnts_rows)
+    if m[0] != "ok":
+        ctx.disagree("model of ndependencies ended in keyerror/fuel on a consistent input (excluded by ndependencies_total)", m, None)
+        return
+    ctx.eq("ndependencies: num_dependencies", [tuple(x) for x in m[1]], [(idx[k], x) for k, x in r_nn.items()])
+    ctx.eq("ndependencies: total_dependencies (with insertion order)", [tuple(x) for x in m[2]],
+           [(idx[k], x) for k, x in r_total.items()])
+    good = _py_totals(adj)
+    if {idx[k]: x for k, x in r_total.items()} != good:
+        ctx.fail("ndependencies: a key has a total iff it reaches no cycle, total = 1 + sum below -- violated",
+                 observed=sorted((idx[k], x) for k, x in r_total.items()), expected=sorted(good.items()))
+    cyclic = len(good) < n
+    if (len(r_total) != n) != cyclic:
+        ctx.fail("the cycle test len(total_dependencies) != len(dsk) does not coincide with 'graph is cyclic'",
+                 observed=[len(r_total), n, cyclic])
+    if cyclic:
+        ctx.branch("ndeps:cyclic")
+        if any(i in adj[i] for i in range(n)):
+            ctx.branch("ndeps:self-loop")
+        if good:
+            ctx.branch("ndeps:cyclic-partial-totals")
+        if any(i not in good and not _on_cycle(adj, i) for i in range(n)):
+            ctx.branch("ndeps:key-above-a-cycle")
+    else:
+        if any(len(a) > 1 for a in adj):
+            ctx.branch("ndeps:dag-fan-in")
+        if any(x > n for x in good.values()):
+            ctx.branch("ndeps:total>n (shared sub-dag counted twice)")
+
+
+def _on_cycle(adj, i):
+    seen, stack = set(), list(adj[i])
+    while stack:
+        u = stack.pop()
+        if u == i:
+            return True
+        if u not in seen:
+            seen.add(u)
+            stack.extend(adj[u])
+    return False
 
 
 def case_collection(ctx, inp):
@@ -215,7 +397,7 @@ def case_collection(ctx, inp):
         ctx.branch("collection>50")
 
 
-CASES = {"order": case_order, "collection": case_collection}
+CASES = {"order": case_order, "ndeps": case_ndeps, "collection": case_collection}
 
 
 def _kinds_for(rng, adj, mode):
@@ -229,36 +411,167 @@ def _kinds_for(rng, adj, mode):
     return out
 
 
+def dag_shapes(n):
+    """Every DAG on n nodes up to isomorphism at least once: topological numberings in which the level (longest path
+    to a root) is non-decreasing and, inside a level, the dependency bitmask is non-decreasing. (Nodes of one level
+    have no edges among them and their masks only mention lower levels, so every DAG has such a numbering.)"""
+    for adj in all_dags(n):
+        level = []
+        ok = True
+        for i in range(n):
+            lv = 1 + max((level[j] for j in adj[i]), default=-1)
+            mask = sum(1 << j for j in adj[i])
+            if level and (lv < level[-1] or (lv == level[-1] and mask < prev_mask)):
+                ok = False
+                break
+            level.append(lv)
+            prev_mask = mask
+        if ok:
+            yield adj
+
+
+def _cyclic_specials():
+    """hand-made cyclic graphs: each cycle position relative to the normalisation loop"""
+    T, D, N = "task", "data", "nontask"
+    # self loop alone / next to a DAG part
+    yield {"adj": [[0]], "kinds": [T], "ext": [0]}
+    yield {"adj": [[], [1, 0]], "kinds": [T, T], "ext": [0, 0]}
+    # 2-cycle, 3-cycle
+    yield {"adj": [[1], [0]], "kinds": [T, T], "ext": [0, 0]}
+    yield {"adj": [[2], [0], [1]], "kinds": [T, T, T], "ext": [0, 0, 0]}
+    # cycle below a stripped non-task leaf (leaf 4 over cycle key 1 and task 3)
+    yield {"adj": [[2], [0], [1], [], [1, 3]], "kinds": [T, T, T, T, N], "ext": [0] * 5}
+    # ... below a chain of two stripped leaves
+    yield {"adj": [[2], [0], [1], [], [1, 3], [4, 3]], "kinds": [T, T, T, T, N, N], "ext": [0] * 6}
+    # cycle above a shared data root that the loop removes (getcycle then meets a dangling reference)
+    yield {"adj": [[], [0, 2], [0, 1]], "kinds": [D, T, T], "ext": [0] * 3}
+    yield {"adj": [[], [0, 2], [1], [0]], "kinds": [D, T, T, T], "ext": [0] * 4}
+    # cycle reachable only through a removed data root's dependents + stripped leaf on top
+    yield {"adj": [[], [0, 2], [0, 1], [1, 2]], "kinds": [D, T, T, N], "ext": [0] * 4}
+    # cycle of non-task (alias / list) nodes, cycle with external references
+    yield {"adj": [[1], [0]], "kinds": [N, N], "ext": [0, 0]}
+    yield {"adj": [[1, 2], [0], []], "kinds": [N, N, T], "ext": [0, 0, 0]}
+    yield {"adj": [[1], [0]], "kinds": [T, T], "ext": [1, 2], "style": "spec"}
+    yield {"adj": [[0]], "kinds": [T], "ext": [1], "style": "spec"}
+
+
+def _orphan_specials():
+    """data roots whose dependents are all stripped after the root was removed (IndexError before fix 389cb25)"""
+    T, D, N = "task", "data", "nontask"
+    yield {"adj": [[], [], [], [0, 1, 2], [1, 2, 3], [2, 4]], "kinds": [T, T, D, N, N, N], "ext": [0] * 6}
+    # two orphaned roots; a removed root (alias of a removed root) that is itself orphaned: emitted transitively
+    yield {"adj": [[], [], [], [], [0, 1, 2, 3], [1, 2, 3, 4], [2, 3, 5]], "kinds": [T, T, D, D, N, N, N], "ext": [0] * 7}
+    yield {"adj": [[], [], [], [2], [2], [0, 1, 3, 4], [1, 3, 4, 5], [3, 4, 6], [0, 7]],
+           "kinds": [T, T, D, N, N, N, N, N, N], "ext": [0] * 9}
+    # the orphaned root next to a root that keeps an alive dependent
+    yield {"adj": [[], [], [], [0, 1, 2], [1, 2, 3], [2, 4], [2, 0]], "kinds": [T, T, D, N, N, N, T], "ext": [0] * 7}
+
+
+def _tower(rng):
+    """a tower of non-task list nodes over a few task / data roots: chains of stripped leaves, removed shared data roots"""
+    m = rng.randint(2, 5)
+    kinds = [rng.choice(["task", "task", "data"]) for _ in range(m)]
+    adj = [[] for _ in range(m)]
+    for _ in range(rng.randint(0, 2)):            # some tasks in the middle
+        adj.append(rng.sample(range(len(adj)), rng.randint(1, min(3, len(adj)))))
+        kinds.append("task")
+    base = len(adj)
+    for t in range(rng.randint(2, 5)):
+        row = rng.sample(range(base), rng.randint(1, min(4, base)))
+        if t:
+            row.append(len(adj) - 1)
+            if t > 1 and rng.random() < 0.3:
+                row.append(len(adj) - 2)
+        adj.append(row)
+        kinds.append("nontask")
+    return {"adj": adj, "kinds": kinds, "ext": [0] * len(adj), "style": rng.choice(["legacy", "legacy", "mixed"])}
+
+
+def _close_cycle(rng, adj):
+    """walk down from a random node along dependencies and let the node reached depend on the start: a cycle of
+    length >= 2 whenever the start has a dependency"""
+    a = rng.randrange(len(adj))
+    b = a
+    for _ in range(rng.randint(1, 4)):
+        if not adj[b]:
+            break
+        b = rng.choice(adj[b])
+    if a not in adj[b]:
+        adj[b].append(a)
+
+
 def generate(ctx):
     rng = ctx.rng
     # witness of the repaired defect (two stripped alias leaves) and a chain of stripped leaves
     yield "order", {"adj": [[], [], [], [0, 1], [1, 2]], "kinds": ["task", "task", "task", "nontask", "nontask"], "ext": [0] * 5}
     yield "order", {"adj": [[], [], [], [0, 1], [1, 2], [3, 4]], "kinds": ["task", "task", "task", "nontask", "nontask", "nontask"], "ext": [0] * 6}
     yield "order", {"adj": [[], [0], [0, 1], [2, 0]], "kinds": ["data", "task", "nontask", "nontask"], "ext": [0, 1, 0, 2], "style": "mixed"}
-    # exhaustive: all DAGs on <= 4 nodes x all kind assignments (quick: n<=3 fully, n=4 sampled; thorough n<=4 fully, 5 sampled)
+    for inp in _cyclic_specials():
+        for style in ("legacy", "spec"):
+            yield "order", dict(inp, style=inp.get("style", style))
+    for inp in _orphan_specials():
+        for style in ("legacy", "mixed"):
+            yield "order", dict(inp, style=style)
+    for _ in range(ctx.n(150, 2000)):
+        inp = _tower(rng)
+        if rng.random() < 0.1:
+            _close_cycle(rng, inp["adj"])
+        yield "order", inp
+    # ndependencies at function level: every digraph (self loops included) on <= 3 nodes, sampled beyond
+    for n in range(1, 4):
+        for adj in all_digraphs(n):
+            yield "ndeps", {"adj": adj}
+    for _ in range(ctx.n(300, 4000)):
+        n = rng.randint(2, rng.choice([4, 5, 8, 20]))
+        if rng.random() < 0.7:
+            adj = random_dag(rng, n, rng.choice([0.2, 0.4, 0.7]))
+            if rng.random() < 0.3:
+                _close_cycle(rng, adj)
+        else:
+            adj = random_digraph(rng, n, rng.choice([0.1, 0.25]) if n > 5 else rng.choice([0.2, 0.4]))
+        perm = list(range(n))
+        rng.shuffle(perm)
+        yield "ndeps", {"adj": adj, "perm": perm, "keys": rng.choice(["int", "mixed"])}
+    # exhaustive: every DAG x every kind assignment (quick: n <= 3, n = 4 sampled; thorough: n <= 4 over all topological
+    # numberings x 3^n kinds; n = 5: every shape up to isomorphism (516 numberings) x every task/non-task labelling
+    # (in a legacy graph a data node with dependencies IS a non-task node); n = 6: every shape (11622 numberings) x the
+    # all-task labelling + 2 sampled labellings with external references)
     full = 4 if ctx.thorough() else 3
     for n in range(1, full + 1):
         for adj in all_dags(n):
             for kinds in itertools.product(KINDS, repeat=n):
                 yield "order", {"adj": adj, "kinds": list(kinds), "ext": [0] * n}
+    if ctx.thorough():
+        for adj in dag_shapes(5):
+            for kinds in itertools.product(("task", "nontask"), repeat=5):
+                yield "order", {"adj": adj, "kinds": list(kinds), "ext": [0] * 5}
+        for adj in dag_shapes(6):
+            yield "order", {"adj": adj, "kinds": ["task"] * 6, "ext": [0] * 6}
+            for _ in range(2):
+                yield "order", {"adj": adj, "kinds": [rng.choice(KINDS) for _ in range(6)],
+                                "ext": [rng.choice([0, 0, 0, 1]) for _ in range(6)],
+                                "style": rng.choice(["legacy", "mixed", "spec"])}
     samp_n = full + 1
-    dags = list(all_dags(samp_n))
-    for _ in range(ctx.n(600, 6000)):
-        adj = rng.choice(dags)
+    dags = list(all_dags(samp_n)) if samp_n <= 4 else None
+    for _ in range(ctx.n(500, 3000)):
+        adj = rng.choice(dags) if dags else random_dag(rng, samp_n, rng.choice([0.3, 0.5, 0.7]), shuffle_labels=False)
         yield "order", {"adj": adj, "kinds": [rng.choice(KINDS) for _ in range(samp_n)],
                         "ext": [rng.choice([0, 0, 0, 1, 2]) for _ in range(samp_n)],
                         "style": rng.choice(["legacy", "mixed", "spec"])}
     # random larger graphs, relabelled; external references; cyclic variants
-    for _ in range(ctx.n(500, 5000)):
+    for _ in range(ctx.n(400, 4000)):
         n = rng.randint(2, rng.choice([6, 10, 25, 60]))
         adj = random_dag(rng, n, rng.choice([0.08, 0.2, 0.4]) if n > 10 else rng.choice([0.3, 0.5]))
         kinds = _kinds_for(rng, adj, rng.choice(["mixed", "mixed", "tasks"]))
         ext = [rng.choice([0, 0, 0, 0, 1, 2]) for _ in range(n)]
         inp = {"adj": adj, "kinds": kinds, "ext": ext, "style": rng.choice(["legacy", "legacy", "mixed", "spec"])}
-        if rng.random() < 0.15:
+        r = rng.random()
+        if r < 0.1:
             a, b = rng.randrange(n), rng.randrange(n)
             if b not in adj[a]:
                 adj[a].append(b)     # may close a cycle (also self loops)
+        elif r < 0.25:
+            _close_cycle(rng, adj)
         yield "order", inp
     for _ in range(ctx.n(30, 300)):
         kind = rng.choice(["array", "bag", "delayed"])
